@@ -290,16 +290,18 @@ func init() {
 func init() {
 	register(&CheckDef{ID: "C22", Level: "model_checking", Only: []string{"C22."},
 		Jobs: func(tier string) []JobDef {
-			j := exporterJob("HarnessC22", 1, 0, "one metric of each kind/type (counter int/float, gauge float, timer, histogram with two observations, text) with two label sets whose values, timestamps, observations and (single lower-case letter) label values are symbolic; formatters graphite, statsd, collectd, varz")
+			j := exporterJob("HarnessC22", 1, 0, "one metric of each kind/type (counter int/float, gauge float, timer, histogram with two observations, text) with two label sets whose values, timestamps, observations and label values (one printable ASCII byte other than a separator) are symbolic; formatters graphite, statsd, collectd, varz; for graphite/statsd/collectd also against a reference record")
 			j.Harness = []string{"exporter/c12.go", "exporter/c22.go"}
 			j2 := exporterJob("HarnessC22Reexport", 1, 0, "counter/gauge/timer metric with label sets a,b (symbolic values and timestamps) exported once, then a removed and c added, exported again with each of the four formatters")
 			j2.Harness = j.Harness
-			return []JobDef{j, j2}
+			j3 := exporterJob("HarnessC22Push", 1, 0, "counter/gauge/timer metric with label sets a,b (symbolic values and timestamps) pushed with writeSocketMetrics through the graphite, statsd and collectd formatters to a connection that records each write")
+			j3.Harness = j.Harness
+			return []JobDef{j, j2, j3}
 		},
 		Assumptions: append([]string{
 			"fmt.Sprintf/Fprintf are engine models: %s/%v/%d/%g of symbolic numbers become opaque formatted pieces that are equal iff their arguments are (injectivity of strconv's shortest formatting; NaNs equal); strings.ReplaceAll/Join and sort.Strings are engine models",
-			"metamorphic oracle: the record for label set 2 of a two-label-set metric must equal the record of a metric holding only that label set; well-formedness of a single record is what the repository's golden tests pin; records are compared as sets of lines (graphite histogram lines are written while ranging over a Go map: natively sorted before comparison, in the engine both records iterate in the same insertion order)",
+			"metamorphic oracle: the record for label set 2 of a two-label-set metric must equal the record of a metric holding only that label set; for graphite, statsd and collectd (non-histogram) the record must also equal a reference record written in the harness from the formats' documents (path/name, label, value text, timestamp text); records are compared as sets of lines (graphite histogram lines are written while ranging over a Go map: natively sorted before comparison, in the engine both records iterate in the same insertion order)",
 			"flag values (graphite/statsd/collectd prefixes) are their defaults",
 		}, baseAssumptions...),
-		Outside: []string{"JSON export and Store.MarshalJSON round trip (encoding/json reflection is not executed symbolically)", "push transport", "label values containing separator characters (excluded by the property)"}})
+		Outside: []string{"JSON export and Store.MarshalJSON round trip (encoding/json reflection is not executed symbolically)", "the push transport below the io.Writer (dialling, datagram sizes)", "label values containing separator characters (excluded by the property)"}})
 }
